@@ -198,11 +198,16 @@ def run(tier, replay_path, t0):
         cases = dedupe(cases + [c["case"] for c in cex])
     log("  replaying %d cases on the real code (%d slates, %d addresses/records)" % (
         len(cases), sum(1 for c in cases if c["kind"] == "slate"), sum(1 for c in cases if c["kind"] != "slate")))
+    t1 = time.time()
     nd = replay("replay_codec", {"seed": seed(), "cases": cases}, PROP)
     events = read_ndjson(nd)
+    t2 = time.time()
     if len(events) != len(cases):
         raise ToolError("harness returned %d lines for %d cases" % (len(events), len(cases)))
     viols, nonconfs, m_ok = trace_validate(nd, PROP, MC_WORKERS)
+    t3 = time.time()
+    log("  stages: build %.0fs, model checking + generation %.0fs, replay %.0fs, trace validation %.0fs" % (
+        build_s, t1 - t0 - build_s, t2 - t1, t3 - t2))
     hp = [n for n in nonconfs if n.get("what") == "harness-panic"]
     if hp:
         raise ToolError("the harness itself panicked on %d cases; first: %s" % (len(hp), hp[0]))
